@@ -1056,6 +1056,11 @@ wseed('C06f','C06.R5'); wseed('C07f','C07.R1'); wseed('C08f','C08.R6'); wseed('C
 
 wseed('C11f','C11.R6'); wseed('C12f','C12.R4'); wseed('C13f','C13.R2'); wseed('C14f','C14.R2'); wseed('C15f','C15.R4')
 wseed('C16f','C16.R3'); wseed('C17f','C17.R1'); wseed('C18f','C18.R3'); wseed('C19f','C19.R6'); wseed('C20f','C20.R1')
+# wave g
+wseed('C01g','C01.R4'); wseed('C02g','C02.R1'); wseed('C03g','C03.R6'); wseed('C04g','C04.R6'); wseed('C05g','C05.R8')
+wseed('C06g','C06.R1'); wseed('C07g','C07.R3'); wseed('C08g','C08.R1'); wseed('C09g','C09.R6'); wseed('C10g','C10.R7')
+wseed('C11g','C11.R7'); wseed('C12g','C12.R3'); wseed('C13g','C13.R4'); wseed('C14g','C14.R3'); wseed('C15g','C15.R7')
+wseed('C16g','C16.R2'); wseed('C17g','C17.R4'); wseed('C18g','C18.R6'); wseed('C19g','C19.R7'); wseed('C20g','C20.R1')
 
 # round 6 (composite refactors) and mutants in their shapes
 for b in ['B31','B32','B33','B34','B35','B36']:
